@@ -525,3 +525,9 @@ def r4(ctx):
     st = [s for s in walk_shallow(f) if isinstance(s, ast.Assign)]
     p = f.args.args[0].arg
     ctx.check("register_npdu_type:keyed", len(st) == 1 and norm(st[0].targets[0]) == "npdu_types[%s.messageType]" % p and norm(st[0].value) == p, where(m, f), "classes must be stored under their messageType")
+
+
+@rule("C08.R5", "a truncated header or message body is refused: every multi-octet read of the decoders goes through the bounded, consuming PDUData reads", floor=8, engines="E1 facts + E5 (shared with C02.R2)")
+def r5_reads(ctx):
+    from .c02 import pdudata_reads
+    pdudata_reads(ctx)
